@@ -22,6 +22,8 @@ try:
     base = sh("cargo test --offline --no-fail-fast", cwd=wt); cb = counts(base.stdout)
     ap = sh("git apply %s" % patch, cwd=wt)
     if ap.returncode != 0:
+        ap = sh("git apply --3way %s" % patch, cwd=wt)
+    if ap.returncode != 0:
         print("patch does not apply:", ap.stderr); sys.exit(2)
     mut = sh("cargo test --offline --no-fail-fast", cwd=wt); cm = counts(mut.stdout)
 finally:
